@@ -285,7 +285,6 @@ Section Exchange.
   Definition never_dropped (p : nat) (sched : list ev) : Prop :=
     forall e, In e sched -> e <> Drop p.
 End Exchange.
-Arguments Step {_}. Arguments Drop {_}.
 Arguments x_pos {R St}. Arguments x_ps {R St}. Arguments x_q {R St}. Arguments x_drop {R St}.
 
 (* ------------------------------------------------------------------ correspondence cases *)
